@@ -1,2 +1,112 @@
-From Coq Require Import ZArith List Bool.
+(* C19/Properties.v — property theorems only: statement, `exact`, Print Assumptions.
+   `impl_flags` is regenerated from klongpy/db/sys_fn_db.py on every run; each theorem is closed with
+   (eq_refl : impl_flags = all_true), which type-checks only while every reading operation of the
+   source commits the insert buffer first and commit keeps the last buffered row of a key. *)
+From Coq Require Import ZArith List Bool Permutation.
 From C19 Require Import Generated Model Spec Proofs.
+Import ListNotations.
+Open Scope Z_scope.
+
+(* The buffered, pandas-backed table IS the unbuffered list / finite map of Spec.v: for every table
+   and every operation sequence of any length inside the property's domain, every Klong-visible
+   result (t?col, #t, .schema, .index, .rindex, added columns, db(sql), errors) is the spec's. *)
+Theorem C19_refines_spec : forall cs rs ops,
+  sdom (screate cs rs) ops = true ->
+  run impl_flags (create cs rs) ops = srun (screate cs rs) ops.
+Proof. exact (fun cs rs ops => refines_create impl_flags cs rs ops (eq_refl : impl_flags = all_true)). Qed.
+Print Assumptions C19_refines_spec.
+
+(* T19.buffer: a read (t?col, #t, .schema, db(sql)) inserted ANYWHERE in ANY sequence changes no
+   other observation: buffering is unobservable. *)
+Theorem C19_buffer_unobservable : forall cs rs pre rd post,
+  is_read rd = true -> sdom (screate cs rs) (pre ++ post) = true ->
+  remove_nth (length pre) (run impl_flags (create cs rs) (pre ++ rd :: post)) =
+  run impl_flags (create cs rs) (pre ++ post).
+Proof. exact (fun cs rs pre rd post => buffer_unobservable impl_flags cs rs pre rd post (eq_refl : impl_flags = all_true)). Qed.
+Print Assumptions C19_buffer_unobservable.
+
+(* T19.order: without index a column read after ANY sequence of single inserts, batch inserts and
+   reads is the initial rows followed by the inserted rows, in insertion order. *)
+Theorem C19_unindexed_order : forall cs rs ops c i,
+  forallb plain ops = true -> sdom (screate cs rs) ops = true -> col_pos c cs = Some i ->
+  run impl_flags (create cs rs) (ops ++ [ORead c]) =
+  run impl_flags (create cs rs) ops ++ [VCells (column i (rs ++ flat_map (inserted (length cs)) ops))].
+Proof. exact (fun cs rs ops c i => unindexed_order impl_flags cs rs ops c i (eq_refl : impl_flags = all_true)). Qed.
+Print Assumptions C19_unindexed_order.
+
+(* T19.index: whatever happened before, an indexed table lists its rows in strictly increasing key
+   order (so one row per key) ... *)
+Theorem C19_indexed_key_order : forall cs rs ops ics,
+  s_index (sfinal (screate cs rs) ops) = Some ics ->
+  sk key_cmp (map fst (s_ents (sfinal (screate cs rs) ops))).
+Proof. exact (fun cs rs ops ics => indexed_sorted ops (screate cs rs) (fun i (H : None = Some i) => match H with end) ics). Qed.
+Print Assumptions C19_indexed_key_order.
+
+(* ... and an insert makes its row THE row of its key and touches no other key (last insert wins). *)
+Theorem C19_indexed_last_wins : forall s ics r,
+  s_index s = Some ics -> sinv s ->
+  lookup key_cmp (key_of (s_cols s) ics r) (s_ents (s_insert s r)) = Some r /\
+  (forall k', k' <> key_of (s_cols s) ics r ->
+     lookup key_cmp k' (s_ents (s_insert s r)) = lookup key_cmp k' (s_ents s)) /\
+  NoDup (map fst (s_ents (s_insert s r))).
+Proof. exact indexed_last_wins. Qed.
+Print Assumptions C19_indexed_last_wins.
+
+(* T19.reindex: creating an index on columns with unique values and dropping it again neither loses
+   nor duplicates rows. *)
+Theorem C19_reindex_same_rows : forall s cs,
+  s_index s = None -> forallb (has_col (s_cols s)) cs = true -> op_dom s (OIndex cs) = true ->
+  let s1 := fst (sstep s (OIndex cs)) in
+  let s2 := fst (sstep s1 ORindex) in
+  s_index s1 = Some cs /\ s_index s2 = None /\
+  Permutation (s_rows s2) (s_rows s) /\ Permutation (s_rows s1) (s_rows s).
+Proof. exact reindex_same_rows. Qed.
+Print Assumptions C19_reindex_same_rows.
+
+(* structural facts of the source the model relies on (buffer discipline, Klong wrappers) *)
+Theorem C19_source_shape : buffer_shape_ok = true /\ wrappers_shape_ok = true.
+Proof. exact (conj eq_refl eq_refl). Qed.
+Print Assumptions C19_source_shape.
+
+(* ---- the behaviour before the fix: commits (R13) and reads that skip the commit -------------- *)
+Definition nm (z : Z) : name := [z].
+Definition n_ (z : Z) : cell := CNum (4 * z).
+Definition ab_cols : list name := [nm 97; nm 98].
+Definition ab_rows : list row := [[n_ 1; n_ 2]; [n_ 2; n_ 3]; [n_ 3; n_ 4]].
+Definition no_dedup : flags := mkF true true true true true true false.
+Definition stale_reads : flags := mkF false false true true true true true.
+
+(* R13a: without the keep-last step two buffered inserts of one NEW key give two rows *)
+Theorem C19_dup_new_key_refuted :
+  let ops := [OIndex [nm 97]; OInsert [n_ 9; n_ 1]; OInsert [n_ 9; n_ 2]; OCount] in
+  sdom (screate ab_cols ab_rows) ops = true /\
+  nth 3 (run no_dedup (create ab_cols ab_rows) ops) VUnit = VInt 5 /\
+  nth 3 (srun (screate ab_cols ab_rows) ops) VUnit = VInt 4.
+Proof. vm_compute. repeat split. Qed.
+
+(* R13b: ... and two buffered re-inserts of one EXISTING key make every later read raise *)
+Theorem C19_dup_existing_key_refuted :
+  let ops := [OIndex [nm 97]; OInsert [n_ 2; n_ 1]; OInsert [n_ 2; n_ 2]; OCount; OQuery QAll] in
+  sdom (screate ab_cols ab_rows) ops = true /\
+  skipn 3 (run no_dedup (create ab_cols ab_rows) ops) = [VErr; VErr] /\
+  nth 3 (srun (screate ab_cols ab_rows) ops) VUnit = VInt 3.
+Proof. vm_compute. repeat split. Qed.
+
+(* t?col / t,"c",,v that do not commit first see a stale frame *)
+Theorem C19_stale_read_refuted :
+  let ops := [OInsert [n_ 4; n_ 5]; ORead (nm 97)] in
+  sdom (screate ab_cols ab_rows) ops = true /\
+  nth 1 (run stale_reads (create ab_cols ab_rows) ops) VUnit = VCells [n_ 1; n_ 2; n_ 3] /\
+  nth 1 (srun (screate ab_cols ab_rows) ops) VUnit = VCells [n_ 1; n_ 2; n_ 3; n_ 4].
+Proof. vm_compute. repeat split. Qed.
+
+(* ---- non-vacuity ---------------------------------------------------------------------------------- *)
+Example C19_example :
+  let ops := [OInsert [n_ 4; n_ 5]; OInsertB [[n_ 6; n_ 7]; [n_ 4; n_ 9]]; OIndex [nm 97; nm 98];
+              OInsert [n_ 2; n_ 3]; OInsert [n_ 0; n_ 1]; OInsert [n_ 0; n_ 1]; ORead (nm 97);
+              ORindex; OSet (nm 99) [n_ 1; n_ 1; n_ 1; n_ 1; n_ 1; n_ 1; n_ 1]; OQuery (QCols [nm 99; nm 97]); OCount] in
+  sdom (screate ab_cols ab_rows) ops = true /\
+  nth 6 (run impl_flags (create ab_cols ab_rows) ops) VUnit = VCells [n_ 0; n_ 1; n_ 2; n_ 3; n_ 4; n_ 4; n_ 6] /\
+  nth 10 (run impl_flags (create ab_cols ab_rows) ops) VUnit = VInt 7 /\
+  forallb plain (firstn 2 ops) = true.
+Proof. vm_compute. repeat split. Qed.
